@@ -243,9 +243,19 @@ func (pipeline *IncrementalPipeline) sync(job *job, ctx context.Context) (int, e
 
 						local := func(workId int, lentities []*server.Entity, wg *sync.WaitGroup) {
 							res := presult{}
-							if reflect.TypeOf(pipeline.transform) == reflect.TypeOf(&JavascriptTransform{}) {
-								t := pipeline.transform.(*JavascriptTransform)
-								tc, _ := t.Clone()
+							// a log error handler wraps the transform: the javascript runtime to clone is inside
+							transform := pipeline.transform
+							wrapper, isWrapped := transform.(*wrappedTransform)
+							if isWrapped {
+								transform = wrapper.t
+							}
+							if reflect.TypeOf(transform) == reflect.TypeOf(&JavascriptTransform{}) {
+								t := transform.(*JavascriptTransform)
+								clone, _ := t.Clone()
+								var tc Transform = clone
+								if isWrapped {
+									tc = &wrappedTransform{clone, wrapper.failingEntityHandlers, wrapper.jobId}
+								}
 								pe, e := tc.transformEntities(runner, lentities, job.title)
 								res.entities = pe
 								res.err = e
